@@ -290,10 +290,14 @@ type C19Scenario struct {
 	// Rules2 guard a second module of the same daemon; every address asks for
 	// both modules (in the order Order decides) so that a verdict for one
 	// module cannot leak into the other.
-	Rules2 []string  `json:"rules2,omitempty"`
-	Order  uint64    `json:"order,omitempty"`
-	Addrs  []string  `json:"addrs"`
-	Tr     Transport `json:"tr"`
+	Rules2 []string `json:"rules2,omitempty"`
+	Order  uint64   `json:"order,omitempty"`
+	// Persist: bit i set = the client with address i ignores an @ERROR line and
+	// carries on with the protocol (argument lines, empty filter list) as if it
+	// had been admitted; it must still receive nothing.
+	Persist uint64    `json:"persist,omitempty"`
+	Addrs   []string  `json:"addrs"`
+	Tr      Transport `json:"tr"`
 }
 
 type c19 struct{}
@@ -359,6 +363,7 @@ func (c19) Generate(seed uint64, tier string, index int) any {
 		}
 	}
 	sc.Tr = Transport{CapCS: kernel.Unbounded, CapSC: kernel.Unbounded, Chunk: g.R.Intn(4), Bias: g.R.Intn(2), SchedSeed: g.R.Uint64() >> 1}
+	sc.Persist = kernel.Derive(sc.Tr.SchedSeed, "persist") // (the enumeration keeps its rule lists; persistence varies with the seed)
 	return sc
 }
 
@@ -447,6 +452,15 @@ func (c19) Run(t *testing.T, scenario any, job *Job, res *Result) {
 						status = pr.Status
 					}
 					if pr != nil && pr.Stage == "refused" {
+						if (sc.Persist>>uint(ai%60))&1 == 1 {
+							// a client that ignores the refusal and carries on regardless
+							for _, a := range []string{"--server", "--sender", "-r", ".", modName + "/"} {
+								w.PutString("persist.arg", a+"\n")
+							}
+							w.PutString("persist.argend", "\n")
+							w.PutInt32("persist.filterend", 0)
+							w.Flush()
+						}
 						// after the error line the server must send nothing more: read until EOF
 						for {
 							b, rerr := w.GetBytes(1)
